@@ -237,6 +237,23 @@ def step (st : St) (line : String) : St × String :=
       let b := names.foldl (fun (bb : B) cn => bb.closeIn cn) b
       let st := track { st with b := b.pumpAll }
       ({ st with b := { st.b with out := [] } }, s!"alive={alive} online={online}")
+    | "cpub", toks =>
+      -- `cpub <conn>,<topic>,<qos>,<pid>,<tag> …`: the scripted clients send these PUBLISH packets at the same moment, each
+      -- connection its own in the order written. deliverMessage runs under the server lock, so every interleaving is one
+      -- of the sequential orders that keep each connection's order; the model takes the written one, and the comparison
+      -- sorts the copies inside a burst (their relative order across publishers is the schedule's choice)
+      let b := toks.foldl (fun (bb : B) tk =>
+        match tk.splitOn "," with
+        | [cn, topic, q, pid, tag] =>
+          match bb.cli? cn with
+          | none => bb
+          | some c =>
+            let tag := unesc tag
+            let msg : Msg := { topic := unesc topic, tag := tag, plen := tag.utf8ByteSize, qos := natOf q }
+            bb.publish { conn := cn, topic := unesc topic, qos := natOf q, pid := natOf pid, tag := tag, plen := tag.utf8ByteSize,
+                         size := totalBytes c.v msg }
+        | _ => bb) b
+      finish st b
     | "raw", cn :: _ =>
       -- the scenarios only send bytes that no MQTT decoder accepts: malformed packet
       if (b.cli? cn).isNone then (st, "no-conn") else finish st (b.kick cn (some 0x81))
